@@ -91,7 +91,7 @@ class SerialDriver(CRTPDriver):
         # Prepare the inter-thread communication queue
         self.in_queue = queue.Queue()
 
-        self.cpx = CPX(UARTTransport(device, 576000))
+        self.cpx = CPX(UARTTransport(device, 576000), [CPXFunction.CRTP])
 
         self._thread = _CPXReceiveThread(self.cpx, self.in_queue,
                                          linkErrorCallback)
